@@ -168,6 +168,9 @@ impl LZ13CompressionFormat {
     }
 
     pub fn decompress(&self, bytes: &[u8]) -> Result<Vec<u8>> {
+        if bytes.len() < 4 {
+            return Err(CompressionError::InvalidInput("LZ13".to_string()));
+        }
         if bytes[0] == 0 {
             let mut result: Vec<u8> = Vec::new();
             result.extend_from_slice(&bytes[4..]);
